@@ -185,6 +185,17 @@ Example timed_nonvacuous :
   user_calls_of [2] 0 (snd (fst (step reuse_world st (Act 0 4 ACollect)))) = [] /\
   user_calls_of [2] 1 (snd (fst (step reuse_world st (Act 0 4 ACollect)))) = [].
 Proof. vm_compute. repeat split; auto; discriminate. Qed.
+(* a partition function that takes a header and then "the rest" off the partition iterator, directly on a
+   persisted dataset: the second collect (served from the cache) gives what the first gives *)
+Example part_after_persist :
+  let w := World [Ctx 0 false]
+                 (fst (alloc_all 0 [(0%nat, [[1; 2; 3; 4]],
+                        [SMap (fun x => x + 1); SPersist;
+                         SPart (fun xs => match xs with [] => [] | a :: r => [a * 100 + fold_left Z.add r 0] end)])])) in
+  map (fun t => (fst (fst t), length (snd (fst t))))
+      (run_history w (init_state Z [None]) [Act 0 3 ACollect; Act 0 3 ACollect])
+  = [(RList [212], 5%nat); (RList [212], 1%nat)].
+Proof. vm_compute. reflexivity. Qed.
 (* ids that are NOT fresh (what per-context counters would give): dataset 2 of a second pipeline reads
    the entry of dataset 2 of the first -- the hypothesis of C05_transparent_from_fresh_ids is needed *)
 Example cross_read_with_colliding_ids :
